@@ -763,15 +763,15 @@ pub fn run(cfg: &RunCfg) -> Report {
         &mut rep,
         cfg,
         "roundtrip",
-        cfg.cases(60_000, 1_200_000),
+        cfg.cases(200_000, 4_000_000),
         || {
             (any::<bool>(), proptest::collection::vec(msg_strategy(), 1..8), proptest::collection::vec(any::<u16>(), 0..6), prop_oneof![3 => Just(1u32 << 20), 1 => max_size_menu()])
                 .prop_map(|(c2s, msgs, cuts, max_size)| Case::Roundtrip { c2s, msgs, cuts, max_size })
         },
         |c| run_case(cfg, c),
     );
-    explore(&mut rep, cfg, "cuts-exhaustive", cfg.cases(30_000, 600_000), || stream_case(true), |c| run_case(cfg, c));
-    explore(&mut rep, cfg, "stream", cfg.cases(60_000, 1_200_000), || stream_case(false), |c| run_case(cfg, c));
+    explore(&mut rep, cfg, "cuts-exhaustive", cfg.cases(150_000, 3_000_000), || stream_case(true), |c| run_case(cfg, c));
+    explore(&mut rep, cfg, "stream", cfg.cases(300_000, 6_000_000), || stream_case(false), |c| run_case(cfg, c));
     // oversize: moderate announced sizes first (a regression that allocates the announced size fails
     // here cleanly); astronomically large ones only if that phase held
     let oversize = |big: bool| {
@@ -794,7 +794,7 @@ pub fn run(cfg: &RunCfg) -> Report {
         }
     };
     let before = rep.violations.len();
-    explore(&mut rep, cfg, "oversize", cfg.cases(20_000, 400_000), oversize(false), |c| run_case(cfg, c));
+    explore(&mut rep, cfg, "oversize", cfg.cases(100_000, 2_000_000), oversize(false), |c| run_case(cfg, c));
     if rep.violations.len() == before {
         explore(&mut rep, cfg, "oversize-huge", cfg.cases(5_000, 100_000), oversize(true), |c| run_case(cfg, c));
     }
